@@ -261,6 +261,11 @@ def root_runs(prop, tier, seed, ops, quick_n, thorough_n, with_enosys=True):
     if with_enosys:
         runs.append(Run(f"{prop}-root-enosys",
                         ["root", "--ops", ops, "--seed", str(seed + 7919), "--n", str(max(n // 3, 50)), "--no-openat2"]))
+    # the caller's privilege: the same operations made as uid/gid 65534 on trees owned by that user in which directories
+    # and files have lost permissions here and there (EACCES/EPERM paths of every operation; the kernel reference calls
+    # are made with the same effective ids; the harness itself observes the tree as root)
+    runs.append(Run(f"{prop}-root-unpriv",
+                    ["root", "--ops", ops, "--seed", str(seed + 104729), "--n", str(max(n // 3, 60)), "--unpriv"]))
     return runs
 
 
